@@ -177,6 +177,12 @@ def run(chk, prop="C02"):
                 nsc += 1
                 chk.ob("C02-D2.scale", o["function"], o["construct"], o["ok"], o["where"], o["detail"], o["expected"])
         chk.floor("C02-D2.scale", nsc, 5, "quadrature-scale obligations shared with C10")
+        chk.rule("C02-D6.fresh", "integrate() of Sequence and Fourier grids reads the hierarchical coefficients: after every change of the values or of the point set the coefficients are "
+                                 "recomputed on every path (obligations of C01-D1 for these two classes), so integrate() equals the weighted sum of the values that are loaded now")
+        from rules import c01
+        from tsg.effects import Effects
+        nfr = c01.fresh_rule(chk, db, Effects(db), "C02-D6.fresh", classes=("TasGrid::GridSequence", "TasGrid::GridFourier"))
+        chk.floor("C02-D6.fresh", nfr, 8, "value / point-set changes in the Sequence and Fourier grids")
         chk.rule("C02-D4.area", "local polynomial quadrature weights are built from getArea: the tabulated basis integrals equal the exact integrals of the closed-form basis (obligations of C04-D4)")
         sub4 = Check("C04", chk.tier, chk.seed)
         c04.run(sub4)
